@@ -378,6 +378,9 @@ class StaticFiles(Stream):
                 for rk in ROOT_KINDS:
                     yield {"kind": kind, "root": rk, "raw": raw}
             yield {"kind": "sdm-pkg", "root": "abs", "raw": raw}
+        # regression F14a (fixed): a NUL under a package export must fall through to 404
+        for raw in ("%00", "..a/%00", "x.css%00", "a/%00/b.txt"):
+            yield {"kind": "sdm-pkg", "root": "abs", "raw": raw}
         n = 0
         limit = 1200 if tier == "quick" else 20000
         while n < limit:
@@ -419,15 +422,7 @@ class StaticFiles(Stream):
         else:
             mw = SharedDataMiddleware(fallback_app, {"/static": root}, cache=False)
         status = []
-        try:
-            it = mw(environ, lambda s, h, exc_info=None: status.append(s))
-        except ValueError:
-            if case["kind"] == "sdm-pkg" and "\x00" in path:
-                # reader.open_resource raises ValueError (embedded null byte), which the package loader
-                # does not catch (it catches OSError only): the request fails with an unhandled exception
-                # instead of a 404. Nothing is served, so this is a refusal for C14 (reported separately).
-                return "404|-"
-            raise
+        it = mw(environ, lambda s, h, exc_info=None: status.append(s))
         try:
             body = b"".join(it)
         finally:
@@ -593,7 +588,6 @@ CHECK = Check(
         "posixpath.normpath / join are hand-modelled from CPython 3.12 and validated by stream normpath-kernel, not verified",
         "unicodedata.normalize('NFKD', .) is an opaque parameter of the secure_filename model; the only law used (idempotence theorem) is that it is the identity on ASCII text; the harness computes the fold with unicodedata exactly as the code does",
         "the file system is outside the model: os.path.isfile enters Model/StaticFiles.lean as an arbitrary predicate (theorem served_path_inside_root holds for every such predicate); stream static-files passes the list of existing regular files; symbolic links inside the root are out of scope (safe_join is purely lexical)",
-        "a NUL in the remainder of a package export makes reader.open_resource raise ValueError, which SharedDataMiddleware's package loader does not catch (OSError only): the request ends in an unhandled exception rather than a 404; nothing is served, the harness counts it as a refusal",
         "containment is lexical: 'inside' means the segments of normpath(result) extend the segments of normpath(base) without '..' and with the same root ('', '/', '//')",
         "safe_join and secure_filename (whole function; NFKD opaque, the Windows branch decided at generation time) are regenerated from the source by tools/py2lean.py (Gen/PyFns_Paths.lean) on every run and proved equal to the hand models safeJoinWith / secureFilename for all inputs (Props/C14T, containment and charset restated on the translated definitions); posixpath.normpath/join/isabs stay the hand models, the other CPython primitives the translated code calls are modelled in Util/PyPrelude.lean and validated by stream prelude-kernels",
     ],
